@@ -40,8 +40,10 @@ func runC14(c *Ctx) {
 	// (0) derived values unsubscribe from their sources and then take back what those sources
 	// contributed: that is only right if unsubscribe orders after a delivery in flight - the callback
 	// contract of C13 (the unsubscribed flag lives under the execution mutex)
-	checkGuards(r, p, "lock/guarded-by", []GuardRow{{Pkg: pkg, Type: "callback", Mutex: "executionMutex", Fields: []string{"unsubscribed", "lastUpdate"}}})
-	checkLockExecutionContract(r, p)
+	// - and, more generally, if the reactive values they are derived from keep the whole subscriber
+	// protocol of C13 (registration hand-off, writer sections, payload = applied diff): every obligation
+	// of C13 is an obligation here
+	runC13(c)
 
 	// (1) derived variable wiring
 	nFam := 0
